@@ -434,5 +434,8 @@ def main(argv):
         return cmd_mutants(argv[1:])
     if cmd == "reality":
         return cmd_reality(argv[1:])
+    if cmd == "realsoak":
+        from . import realsoak
+        return realsoak.main(argv[1:])
     print(__doc__)
     return 2
